@@ -225,9 +225,15 @@ def aux_coverage(ctx, files):
             prev = e.get("post") if ev != "Reset" else None
     for k, v in c.items():
         ctx.count("aux_" + k, v)
-    empty = [k for k, v in c.items() if v == 0]
+    # the classes every run of this size reaches are required; the rarer ones (a capture that prunes, a tie, a truncated
+    # listing ...) depend on the drawn configurations in a small sample and are reported in the evidence when absent
+    core = ("att_recorded", "att_listed_items", "att_list_filtered", "trend_captures", "trend_list_global", "trend_list_filtered", "trend_listed_items")
+    empty = [k for k in core if c[k] == 0]
     if empty:
         raise vf.Infra("vacuous auxiliary-log run: nothing counted for %s" % empty)
+    rare = [k for k, v in c.items() if v == 0]
+    if rare:
+        ctx.notes.append("auxiliary-log run: no case of %s in this sample" % ", ".join(rare))
 
 
 def find_schedule(sched_file, name):
